@@ -488,6 +488,7 @@ func canonT(n jparse.Node) *tree {
 }
 
 func runC04(c *ctx) {
+	stmtC04(c)
 	c.rep.Rule = "operator trees over the complete infix/postfix operator set (exhaustive over all ordered pairs and triples of binary operators, random trees of depth <= 4 with " +
 		"postfix ( ) [ ] { } ^( ), ? : and :=), printed (a) with the minimal parentheses required by the precedence table of the property statement and (b) fully parenthesised, with " +
 		"three whitespace variants and both quote characters; the implementation's tree (blocks of one expression removed, paths/predicates folded) must equal the generated tree, " +
